@@ -11,10 +11,10 @@ UNITS = [
       functions=[], timeout=300, min_obl=6, replay=False,
       note="lemma harness over the three DFCC-enforced API contracts only (no library code executed): sign;sign, failed sign;sign, gen;sign;sign, failed gen;sign"),
     U("C13.nonce_gen_contract", ["C13"], "harness/C13/nonce_gen_contract.c", "h_nonce_gen_contract", enforce=["secp256k1_musig_nonce_gen"],
-      replace=NG_OR, assumed=NG_ASSUMED, functions=["secp256k1_musig_nonce_gen", "secp256k1_musig_nonce_gen_internal"], timeout=600, min_obl=300, replay=False, unwind=134,
+      replace=NG_OR, assumed=NG_ASSUMED, functions=["secp256k1_musig_nonce_gen", "secp256k1_musig_nonce_gen_internal"], timeout=2400, tier="thorough", min_obl=300, replay=False, unwind=134,
       note="DFCC-enforced contract incl. assigns frame; nonce_function_musig replaced by its summary (stream proved in C12.nonce_function)"),
     U("C13.nonce_gen_counter_contract", ["C13"], "harness/C13/nonce_gen_contract.c", "h_nonce_gen_counter_contract", enforce=["secp256k1_musig_nonce_gen_counter"],
-      replace=NG_OR, assumed=NG_ASSUMED, functions=["secp256k1_musig_nonce_gen_counter", "secp256k1_musig_nonce_gen_internal"], timeout=600, min_obl=300, replay=False, unwind=134,
+      replace=NG_OR, assumed=NG_ASSUMED, functions=["secp256k1_musig_nonce_gen_counter", "secp256k1_musig_nonce_gen_internal"], timeout=2400, tier="thorough", min_obl=300, replay=False, unwind=134,
       note="DFCC-enforced contract incl. assigns frame"),
     U("C13.nonce_gen", ["C13", "C12"], "harness/C13/nonce_gen.c", "h_nonce_gen", replace=NG_OR, assumed=NG_ASSUMED,
       functions=["secp256k1_musig_nonce_gen", "secp256k1_musig_nonce_gen_internal", "secp256k1_musig_secnonce_save", "secp256k1_musig_secnonce_invalidate",
